@@ -31,6 +31,30 @@ CHECKS = {
         text="The real visit_leaves, transform, multi-TAN and multi-WCS producer/worker code runs over the virtual multiprocessing layer; every interleaving of puts, feeder flushes, receives, receive timeouts, close/join_thread, the done flag and worker exits is explored per configuration; at every terminal state the processed item set must equal the serial set (itself compared with the reference quadtree), every item is delivered at most once with its own tile geometry, all workers have exited, no lock file remains; the termination analysis shows a returning continuation from every reachable state.",
         note=_E1_NOTE,
     ),
+    "C10": dict(
+        engine="vmp",
+        category="model_checking",
+        design_ref="5/C10",
+        technique="stateful exhaustive interleaving exploration of lock/read/write steps of concurrent update_image blocks",
+        text="N=2..3 virtual processes run the real PyramidIO.update_image read-modify-write blocks (1-2 each, disjoint and overlapping regions, one or two tiles, both naming schemes, explicit format) over a virtual existence lock and tile-I/O layer in which lock-acquire, read, write-begin, write-end and release are choice points; all interleavings are explored. At every terminal state the tile must equal some serial order of the updates, no lock file may remain; any read or write overlapping an unfinished write of the same path is flagged at the step where it happens; deadlock and non-termination are detected on the state graph. A free-running run with real processes and the real SoftFileLock binds the lock model to reality.",
+        note=_E1_NOTE + " SoftFileLock itself is modelled (existence lock), not verified.",
+    ),
+    "C13": dict(
+        engine="bex",
+        category="exploration",
+        design_ref="5/C13",
+        technique="bounded-exhaustive enumeration of filters x apexes x depths against a reference quadtree; all position pairs to a depth bound",
+        text="Every effective depth-2 TOAST filter (17^4), every depth-1 filter, generic pyramids to depth 4-5 with every apex (to depth 3) and a 51-filter family with every apex are pushed through count_leaf_tiles/count_live_tiles/count_operations, visit_leaves, walk and the position generator and compared with an independent reference quadtree, the closed forms and the sub-pyramid/full differential; the position algebra is checked on every pair of positions to depth 4 (5 in thorough).",
+        note="Reference model vt/ref/quadtree.py written from the documentation. Depth-3 filters exhaustive only within one level-1 quadrant (thorough).",
+    ),
+    "C18": dict(
+        engine="bex",
+        category="fault_enumeration",
+        design_ref="5/C18",
+        technique="exhaustive crash-point x torn-write x directory-order enumeration on the real publish path with a fault-injecting store",
+        text="The real PipelineManager.publish runs against a LocalPipelineIo wrapped by a fault injector: every file set of 1..5 (6) files with and without index.wtml, every permutation in which os.listdir may return it, and a crash at every transfer in three torn-write modes, before the rename, or not at all; two approved images in both orders. After each crash the store invariant (index.wtml present => all other files complete; image still approved, not published; check_exists as used by refresh), the transfer order and recovery by a fault-free re-run are checked; the real refresh step is run after crashes.",
+        note="Crash = exception out of put_item/os.rename standing for process death; torn write = strict prefix of the bytes; store = local directory.",
+    ),
     "C19": dict(
         engine="vmp",
         category="model_checking",
